@@ -45,7 +45,12 @@ def collect(ctx: Ctx, n: int, tagp: str):
              EL.call("sumall", {"k": "map", "t": "inc", "xs": {"k": "list", "items": [EL.V(1), EL.call("inc", EL.V(5))]}}),
              EL.call("sumall", {"k": "map", "t": "twice", "xs": EL.call("fan", EL.V(2))}),
              EL.call("kw", EL.V(1), kw=[["c", EL.call("inc", EL.V(0))]]),
-             EL.call("chooser", EL.V(5)), EL.call("sumall", EL.call("mid", EL.call("deep", EL.V(2))))]
+             EL.call("chooser", EL.V(5)), EL.call("sumall", EL.call("mid", EL.call("deep", EL.V(2)))),
+             # two equal scheduler-task expressions under one parent (the second reuses the first one's evaluation)
+             EL.call("add", {"k": "catch", "body": EL.call("inc", EL.V(0)), "handlers": [[["ValueError"], "recover"]]},
+                     EL.call("ident", {"k": "catch", "body": EL.call("inc", EL.V(0)), "handlers": [[["ValueError"], "recover"]]})),
+             EL.call("add", {"k": "cond", "clauses": [[EL.call("inc", EL.V(1)), EL.call("twice", EL.V(2))]], "else": EL.V(0)},
+                     EL.call("ident", {"k": "cond", "clauses": [[EL.call("inc", EL.V(1)), EL.call("twice", EL.V(2))]], "else": EL.V(0)}))]
     progs = (fixed + [PL.prov_expr(ctx.rng, ctx.rng.randint(2, 4)) for _ in range(n)]
              + [PL.dup_call_program(ctx.rng) for _ in range(max(12, n // 3))])
     for i, e in enumerate(progs):
